@@ -175,7 +175,7 @@ PROPS["C11"] = dict(
                "the leader makes exactly one, with the request, and owns the key the extractor returns), CoalesceFuture::poll (leader: completes its key exactly once with a clone of the inner result and returns that result; "
                "pending keeps the registration; waiter touches neither inner service nor map) and its Drop (a dropped leader frees its key without sending; a completed one does not cancel).",
     level_note="Obligation ledger: the registration duty is held by an RAII guard (Registration, then the future; both Drops under contract) at every point that may panic or be cancelled (repaired by a fix: commit). "
-               "'key in map iff exactly one live leader holds it' is the induction over these contracts (meta-argument). "
+               "'key in map iff exactly one live leader holds it' is machine-checked as a lemma over these contracts: reg_inv over the ghost registry (key set of the map + live leaders with an armed registration) is kept by every join (lemma_reg_join over the clause join_post proved on try_join's body) and every release (lemma_reg_release over the 'frees exactly that key' clauses of complete / cancel); the registry history is folded by spec functions outside the bodies, and that a release is made by a live holder of that key is read off the poll / Drop contracts (key Some before, None after), not threaded as ghost state. "
                "hashbrown::HashMap read as std HashMap; parking_lot Mutex sections atomic; tokio broadcast contract assumed.",
     technique="contract-based deductive verification (Verus): abstract-map contracts on the in-flight registry + obligation ledger on call/poll/drop",
     design_ref="§6 C11",
